@@ -637,6 +637,18 @@ func (p *Parent) Finish(sum *Summary) int {
 		fmt.Printf("KNOWN-FINDING: property=%s %s\n", f.Prop, f.Text)
 	}
 	if len(fresh) > 0 {
+		kinds := map[string]int{}
+		for _, v := range fresh {
+			kinds[v.Class+"/"+v.Kind]++
+		}
+		var kn []string
+		for k := range kinds {
+			kn = append(kn, k)
+		}
+		sort.Strings(kn)
+		for _, k := range kn {
+			fmt.Printf("  violations of kind %s: %d\n", k, kinds[k])
+		}
 		repDir := filepath.Join(VerifDir(), "replays")
 		os.MkdirAll(repDir, 0o755)
 		max := len(fresh)
